@@ -17,7 +17,7 @@ RULE = ("seeded random + structured ballot profiles (partial rankings of every l
         "ties at the first / last round, symmetric profiles), n = 2..7 candidates (8 in the thorough tier), reported "
         "winner right / runner-up / random, both difficulty functions, order hint none / true / wrong; non-trivial = "
         "n >= 3 and the audit is possible; distinct = hash of the case")
-REQUIRED = ["contest_object_reused_after_other_cvrs", "ballot_mappings_not_stored_in_preference_order", "contest_identifier_is_not_a_string", "runs_with_a_positive_allowed_gap", "profiles_run", "auditable", "not_auditable", "assertions_recounted", "orders_checked", "wrong_winner_cases",
+REQUIRED = ["contest_object_reused_after_other_cvrs", "ballot_mappings_not_stored_in_preference_order", "contest_identifier_is_not_a_string", "runs_with_a_positive_allowed_gap", "contest_object_stores_another_winner_than_the_argument", "profiles_run", "auditable", "not_auditable", "assertions_recounted", "orders_checked", "wrong_winner_cases",
             "n_candidates:2", "n_candidates:3", "n_candidates:4", "n_candidates:5", "n_candidates:6", "returned_NEB", "returned_NEN"]
 ASSUMPTIONS = ["the oracle quantifies over exactly the assertion family RAIRE uses (NEB, NEN with any eliminated set)",
                "ties are legitimate inputs"]
